@@ -156,13 +156,6 @@ pub assume_specification<T: Default>[ std::mem::take::<T> ](dest: &mut T) -> (r:
 pub proof fn axiom_default_vec_empty<T>()
     ensures default_of::<Vec<T>>()@.len() == 0,
 { admit(); }
-/// R18: `OPT.unwrap_or_else(|| panic!(..))` -> `vx_expect(OPT)`: the code asserts the value is present; proving the
-/// call safe means proving that it is
-#[verifier::external_body]
-pub fn vx_expect<T>(o: Option<T>) -> (r: T)
-    requires o is Some,
-    ensures r == o.unwrap(),
-{ o.unwrap() }
 pub assume_specification<'a>[ ModuleGraph::get ](g: &'a ModuleGraph, s: &Url) -> (m: Option<&'a Module>);
 pub assume_specification<'a>[ Module::source ](m: &'a Module) -> (s: Option<&'a std::sync::Arc<str>>);
 pub assume_specification[ fast_insecure_hash ](b: &[u8]) -> (h: u64);
